@@ -13,6 +13,8 @@ CONSTANTS MaxDev,     \* number of deviations from the base shape
 VARIABLES devs, phase, st, hist
 vars == <<devs, phase, st, hist>>
 
+\* names a library might give a new header/footer part (some are taken in some shapes)
+HFNamePool == {"header1.xml", "header2.xml", "header3.xml", "footer1.xml", "footer2.xml"}
 DevPool == {d \in AllDevs : d.dim \in Dims}
 
 SimpleOps == {"AddParagraph", "AddHeading", "AddFormattedParagraph", "AddListItem", "AddFootnote", "AddEndnote",
@@ -56,8 +58,9 @@ Emit == phase # "open" \/ Len(hist) < Depth \/ PrintT(<<"WZCASE", ToJson(hist)>>
 \* ---- exhaustive exploration of the reference machine over all fresh choices ------
 Choices(s, e) ==
   IF e.op = "RemoveParagraphAt" THEN {[id |-> "", name |-> "", rm |-> k] : k \in 0..Len(s.paras)}
-  ELSE IF NewPart(e, NoChoice) = <<>> THEN {NoChoice}
+  ELSE IF NewPart(s.m, e, NoChoice) = <<>> THEN {NoChoice}
   ELSE IF e.op = "AddImage" THEN {[id |-> i, name |-> nm, rm |-> 0] : i \in IdPool, nm \in NamePool}
+  ELSE IF e.op \in HFOps THEN {[id |-> i, name |-> nm, rm |-> 0] : i \in IdPool, nm \in HFNamePool}
   ELSE {[id |-> i, name |-> "", rm |-> 0] : i \in IdPool}
 
 EditMC == /\ phase = "open" /\ Len(hist) < Depth
